@@ -212,6 +212,19 @@ DESCR = {
  "C18-L": ("bufio readers from a package-level pool, returned by Conn.Close (not idempotent)", "a Connection closed twice, then several upgraded connections at the same time"),
  "C19-L": ("client tcp arm splits at the last ':' and re-joins with JoinHostPort", "tcp:[::1]:port"),
  "C20-L": ("LISTEN_* decision computed once per process (sync.Once)", "a later Bind/Listen after the process changed its LISTEN_* environment"),
+ "C01-M": ("HandleMessage run in a goroutine; the result channel is created once per serve period and shared by all connections", "a handler on another connection finishing while this connection waits for its own handler"),
+ "C02-M": ("oneway frames written by a background goroutine, Send returns at once", "Close or the end of the per-call context while a large oneway frame is still being written"),
+ "C03-M": ("bridge in its own process group; Close sends SIGTERM before Wait", "a oneway call followed at once by Close over a bridge"),
+ "C04-M": ("interface table copy-on-write in an atomic.Value; load, check and copy outside the lock", "registrations of different names overlapping in time (lost update)"),
+ "C10-M": ("accept deadline switched off while connections are open; cleared after the lock is released", "the last connection ending between the loop's busy check and its SetDeadline call"),
+ "C11-M": ("a net timeout from the read is reported as ctx.Err()", "the socket deadline firing before the context's own timer (short polls)"),
+ "C12-M": ("the frame after a continues reply is read ahead under the context of the receive that has returned", "one short-lived context per receive, an error ending a sequence a few ms later"),
+ "C13-M": ("RegisterInterface releases the mutex around VarlinkGetDescription (check-then-act)", "two registrations of one name, or a registration and the start of serving, overlapping"),
+ "C14-M": ("Shutdown closes the listener outside the mutex, then sets listener = nil without checking it is still the same", "re-bind and re-serve as soon as the serving call returned, while Shutdown is still in Close"),
+ "C15-M": ("accept deadline removed while busy, re-armed by the last connection; the removal lands after the re-arm", "the last connection ending while the loop is between its busy check and SetDeadline"),
+ "C16-M": ("the last connection's cleanup calls refreshTimeout (reads s.listener without the mutex)", "a connection ending after Shutdown closed the listener but before teardown"),
+ "C17-M": ("deadline arming moved into the helper goroutine", "cancel within microseconds of the start of the operation"),
+ "C18-M": ("a cancelled read joins its helper for at most 100 ms, then resets the forced deadline", "a transport whose reads start late: the helper left behind takes the next bytes"),
 }
 
 conf = {}
@@ -255,7 +268,7 @@ for pid in sorted(props):
                 shutil.copy(os.path.join(out, extra), os.path.join(d, extra))
         if os.path.isdir(os.path.join(out, f"{pid}_{v}_demo")):
             shutil.copytree(os.path.join(out, f"{pid}_{v}_demo"), os.path.join(d, "demo")); demo = "demo/run.sh"
-        for nf in (f"{pid}_notes.md", f"{pid}_notes2.md", f"{pid}_notes3.md", f"{pid}_notes4.md", f"{pid}_notes5.md", f"{pid}_notes6.md", f"{pid}_notes7.md"):
+        for nf in (f"{pid}_notes.md", f"{pid}_notes2.md", f"{pid}_notes3.md", f"{pid}_notes4.md", f"{pid}_notes5.md", f"{pid}_notes6.md", f"{pid}_notes7.md", f"{pid}_notes8.md"):
             if os.path.exists(os.path.join(out, nf)):
                 shutil.copy(os.path.join(out, nf), os.path.join(d, "notes.md"))
         what, needs = DESCR.get(key, ("see notes.md", "see notes.md"))
